@@ -200,6 +200,11 @@ func genC03(r *h.Rng, tier string, idx int) *h.Plan {
 		{"and": []interface{}{map[string]interface{}{"or": []interface{}{map[string]interface{}{}, pat("q", "?y")}}, map[string]interface{}{"not": pat("p", "?y")}}},
 		{"and": []interface{}{map[string]interface{}{"or": []interface{}{pat("q", "?y"), pat("p", "?x"), pat("r", "?y")}}, map[string]interface{}{"not": map[string]interface{}{"and": []interface{}{pat("p", "?y")}}}}},
 	}
+	// ... and a `not` that stands before the conjunct that binds its variable
+	// (left-to-right composition: the variable is free when the `not` is evaluated)
+	shapes = append(shapes,
+		map[string]interface{}{"and": []interface{}{map[string]interface{}{"not": pat("q", "?x")}, pat("p", "?x")}},
+		map[string]interface{}{"and": []interface{}{pat("r", "?y"), map[string]interface{}{"not": pat("q", "?x")}, pat("p", "?x")}})
 	if r.Bool() {
 		p.Ops = append(p.Ops, h.Op{K: "querytree", Loc: "L", J: shapes[r.Intn(len(shapes))]})
 	}
